@@ -47,7 +47,22 @@ def m_outlive(tier):
     return dict(alpha=["push", "drain", "splice", "keep", "outlive", "forget"], MaxLen=2 if tier == "quick" else 3, MaxLenB=1, MaxExt=1, MaxOut=1,
                 MaxRepl=1, OneHandle=True, forms=["x..y"], srcs=["typed", "wrapper"], timeout=6000)
 
+def m_clone(tier):
+    # clone / clone_empty(_in) on Cloneable constraint sets, followed by every single operation on either vector
+    return dict(alpha=["push", "pop", "remove", "clear", "mutate", "clone", "ce_probe", "ext_drop"],
+                MaxLen=2 if tier == "quick" else 3, MaxLenB=2 if tier == "quick" else 3, MaxExt=1,
+                OneHandle=True, srcs=["wrapper"], sinks=["drop", "push", "ext"], timeout=6000)
+def m_lazy(tier):
+    # lazy clones of element references, removal handles and kept drained items; depth 1..3; 0..k consumptions; every sink
+    return dict(alpha=["push", "pop", "lazy", "drain", "keep", "hmutate", "mutate"], MaxLen=2, MaxLenB=1 if tier == "quick" else 2, MaxExt=1 if tier == "quick" else 2, MaxOut=1,
+                MaxLazyDepth=3, MaxLazyN=2 if tier == "quick" else 3, OneHandle=True, forms=["x..y"], srcs=["wrapper"], sinks=["drop"], timeout=6000)
+def m_clonefixed(tier):
+    return dict(m_clone(tier), cfg="CfgFixed3", MaxLen=3, MaxLenB=3, MaxLazyDepth=1, MaxLazyN=2, alpha=["push", "pop", "clear", "clone", "ce_probe", "lazy"])
+
 MODELS = {
+    "clone": m_clone,
+    "lazy": m_lazy,
+    "clonefixed": m_clonefixed,
     "outlive": m_outlive,
     "cap": m_cap,
     "fixed": m_fixed,
@@ -128,7 +143,30 @@ def c18(tier):
             dict(model="elem", configs=cfgs(["heap8d", "heap160a32", "heap3n"], (R, D))), dict(model="range", configs=cfgs(["heap8d", "heap160a32"], (R, D))),
             dict(model="shift", configs=cfgs(LAYOUTS_T, (R,)))]
 
+def c08(tier):
+    if tier == "quick":
+        return [dict(model="clone", configs=cfgs(["heap8c", "fence24d"], (R,))), dict(model="clonefixed", configs=cfgs(["stackn3", "stack8c"], (R,)))]
+    return [dict(model="clone", configs=cfgs(["heap8c", "heap3c", "heap0c", "heap8css", "heap160", "fence24d"], (R, D))),
+            dict(model="clonefixed", configs=cfgs(["stackn3", "stack8c"], (R, D)))]
+def c09(tier):
+    if tier == "quick":
+        return [dict(model="lazy", configs=cfgs(["heap8c", "heap160"], (R,)))]
+    return [dict(model="lazy", configs=cfgs(["heap8c", "heap160", "heap8css", "fence24d"], (R, D))), dict(model="clonefixed", configs=cfgs(["stackn3"], (R,)))]
+
 PLAN = {
+    "C08": dict(campaigns=c08, level="model_checking",
+                claim="Every state of the bounded two-vector model x clone() (replacing the other vector), clone_empty and clone_empty_in on "
+                      "{same, Heap, Stack, StackN, instrumented} target backends, on Cloneable constraint sets and heap, instrumented and fixed-"
+                      "capacity source backends, followed by every single operation on the original and on the clone: TLC judges type/layout/"
+                      "length, each source element cloned exactly once and in position, separate storage, independence of the two vectors, "
+                      "and that the empty twin accepts, clones and destroys values.",
+                rule="cases = all transitions of the clone models; non-trivial = clone_vec / ce_probe at depth >= 2 and every operation following one"),
+    "C09": dict(campaigns=c09, level="model_checking",
+                claim="Lazy clones of an element reference, of a removal handle and of a kept drained item, chain depth 1..3, copied and "
+                      "consumed 0..k times by push / insert / splice / downcast, from every state of the bounded model: TLC judges that creating, "
+                      "copying and dropping run no callbacks, that each consumption clones the ROOT source exactly once into the destination, "
+                      "and that the source is unchanged.",
+                rule="cases = all transitions of the lazy model; non-trivial = a lazy action at depth >= 2 (n = 0 consumptions are the silent-create/drop cases)"),
     "C10": dict(campaigns=c10, level="model_checking",
                 claim="Every (len, capacity) state of one vector up to the bound x every reserve / reserve_exact / shrink_to_fit / shrink_to / "
                       "with_capacity request 0..bound and at usize::MAX-2..usize::MAX (erased and typed), interleaved with push/pop/clear, is "
